@@ -560,6 +560,28 @@ def fr9(ctx):
                       'a block is quarantined for another reason than an undecodable header or an overflowing frame: the intact entries in the rest of the block would be lost with it')
     if n == 0:
         ctx.missing('quarantine', 'no `block_corrupted = true` store found in the frame reader')
+    # ... and "does not decode" means one thing only: the frame-type byte is not a frame type. A header rejected for
+    # any other reason (a checksum or a length that "looks wrong") is damage confined to checksum / length bytes
+    # that would take the rest of the block with it.
+    hd = ctx.fn('frame::header::Header::deserialize')
+    if hd:
+        hd = hd[0]
+        fts = [cs for cs in hd.calls if cs.path.endswith('FrameType::from_u8')]
+        none_edges = []
+        for cs in fts:
+            if cs.dest_local() is not None:
+                none_edges += result_edges(hd, cs.dest_local())['err']
+        k = 0
+        for e in hd.exits():
+            if e['kind'] == 'some':
+                continue
+            k += 1
+            if e['kind'] == 'err_prop':
+                ok = e.get('call') is not None and any(e.get('call') is cs for cs in fts)
+            else:
+                ok = any(hd.edge_dominates(ne, e['point']) for ne in none_edges)
+            ctx.check(ok, 'deserialize:none-only-for-invalid-type#%d' % k, where(hd, e['point']), 'a header is rejected only for an invalid frame-type byte',
+                      'Header::deserialize rejects a header for another reason than an invalid frame-type byte: damage confined to the checksum / length bytes of one frame would quarantine the rest of its block')
 
 
 @rule('FR7', ['C10', 'C01', 'C02'], floor=3, template='control-dependence')
@@ -660,7 +682,7 @@ def fr8(ctx):
         ctx.missing('quarantine-stores', 'no `block_corrupted = true` store found')
 
 
-@rule('FR5b', ['C07', 'C08'], floor=1, template='must-store')
+@rule('FR5b', ['C07', 'C08', 'C02'], floor=1, template='must-store')
 def fr5b(ctx):
     """A returned frame has been consumed entirely: the cursor advanced by HEADER_LEN and by the payload length."""
     n = 0
@@ -672,27 +694,25 @@ def fr5b(ctx):
             if rv['k'] != 'use' or rv['op']['k'] not in ('copy', 'move'):
                 continue
             ol = rv['op']['place']['l']
-            # through named locals: `let end = cursor + len; ..; cursor = end`
-            hops = 0
-            while hops < 6:
-                d1 = b.single_def(ol)
-                if d1 and d1[1] == 'assign' and not d1[2]['place']['p'] and d1[2]['rv']['k'] == 'use' and d1[2]['rv']['op']['k'] in ('copy', 'move'):
-                    ol = d1[2]['rv']['op']['place']['l']
-                    hops += 1
+            # through named locals, helper results and `?`: `let end = cursor + len; ..; cursor = end`,
+            # `let end = self.consume_header(..)?` with the helper in place (trace_local folds the Ok(..) / Continue(..) wrappers)
+            adds = [(o[1], o[2]) for o in b.trace_local(ol) if o[0] == 'rv' and o[2]['k'] == 'binop' and o[2]['op'].startswith('Add')]
+            adds += [(dp, data['rv']) for (dp, kind, data) in b.defs.get(ol, []) if kind == 'assign' and data['rv']['k'] == 'binop' and data['rv']['op'].startswith('Add')]
+            # `(checked add).0`
+            for o in b.trace_local(ol):
+                if o[0] == 'place' and len(o[2]['p']) == 1 and o[2]['p'][0]['k'] == 'field' and o[2]['p'][0]['i'] == 0:
+                    adds += [(dp, data['rv']) for (dp, kind, data) in b.defs.get(o[2]['l'], []) if kind == 'assign' and data['rv']['k'] == 'binop' and data['rv']['op'].startswith('Add')]
+            for (dp, brv) in adds:
+                a, bb = brv['a'], brv['b']
+                if (op_const_named(a) or '').endswith('HEADER_LEN') or (op_const_named(bb) or '').endswith('HEADER_LEN'):
+                    hdr_adv.append(p)
                 else:
-                    break
-            for (dp, kind, data) in b.defs.get(ol, []):
-                if kind == 'assign' and data['rv']['k'] == 'binop' and data['rv']['op'].startswith('Add'):
-                    a, bb = data['rv']['a'], data['rv']['b']
-                    if (op_const_named(a) or '').endswith('HEADER_LEN') or (op_const_named(bb) or '').endswith('HEADER_LEN'):
-                        hdr_adv.append(p)
-                    else:
-                        t_len = set()
-                        for cs in b.calls:
-                            if cs.node is not None and ctx.f.bodies[cs.node].path.startswith('frame::header::Header::') and ctx.f.bodies[cs.node].ret_ty == 'usize':
-                                t_len |= fl.forward(set(fl.call_result_nodes(cs)), skip_mem=True)
-                        if fl.op_tainted(a, t_len) or fl.op_tainted(bb, t_len):
-                            len_adv.append(p)
+                    t_len = set()
+                    for cs in b.calls:
+                        if cs.node is not None and ctx.f.bodies[cs.node].path.startswith('frame::header::Header::') and ctx.f.bodies[cs.node].ret_ty == 'usize':
+                            t_len |= fl.forward(set(fl.call_result_nodes(cs)), skip_mem=True)
+                    if fl.op_tainted(a, t_len) or fl.op_tainted(bb, t_len):
+                        len_adv.append(p)
         for e in b.exits():
             if e['kind'] == 'ok':
                 n += 1
@@ -702,6 +722,30 @@ def fr5b(ctx):
                           'a frame can be returned without the cursor having moved past its %s: the next read would start inside this frame' % ('header' if not o1 else 'payload'))
     if n == 0:
         ctx.missing('frame-exit', 'no Ok exit in the frame reading body')
+    # the cursor moves past a header only once that header DECODED: recovery hands the cursor to the writer, which must
+    # resume ON a torn / undecodable header (and overwrite it), not 7 bytes after it
+    k = 0
+    for b in ctx.f.bodies.values():
+        if b.generic_dup() or not b.path.startswith(FRD):
+            continue
+        good = []
+        for cs in b.calls:
+            dl = cs.dest_local()
+            if dl is None:
+                continue
+            ty = b.local_ty(dl)
+            if cs.path.endswith('Header::deserialize') or (ty.startswith('std::result::Result<frame::header::Header,') and cs.node is not None):
+                good += result_edges(b, dl)['ok']
+        for (p, pl, rv) in stores_to(b, 'FrameReader', 'cursor'):
+            if rv['k'] != 'use' or rv['op']['k'] not in ('copy', 'move'):
+                continue
+            ol = rv['op']['place']['l']
+            adds = [(dp, data['rv']) for (dp, kind, data) in b.defs.get(ol, []) if kind == 'assign' and data['rv']['k'] == 'binop' and data['rv']['op'].startswith('Add')]
+            if not any((op_const_named(a_['a']) or '').endswith('HEADER_LEN') or (op_const_named(a_['b']) or '').endswith('HEADER_LEN') for (_dp, a_) in adds):
+                continue
+            k += 1
+            ctx.check(any(b.edge_dominates(e, p) for e in good), '%s:header-consumed-only-if-decoded#%d' % (b.path, k), where(b, p), 'cursor += HEADER_LEN under the success edge of the header decode',
+                      'the cursor can move past a header that did not decode: after recovery the writer would resume behind a torn header instead of overwriting it, and everything written there is dropped at the next restart')
 
 
 @rule('REC6', ['C02', 'C09', 'C03', 'C12', 'C18'], floor=1, template='no-reach')
